@@ -31,7 +31,7 @@ import (
 //           its start value at any quiescent point
 // ---------------------------------------------------------------------------
 
-var c20ops = []string{"connect", "disconnect", "req-ok", "req-unsupported", "req-invalid", "req-multikey", "move-group", "start-migration", "node-down", "node-up", "reset-backend", "remove-all-hosts", "add-hosts"}
+var c20ops = []string{"connect", "disconnect", "req-ok", "req-unsupported", "req-invalid", "req-multikey", "req-unfollowable-redirect", "move-group", "start-migration", "node-down", "node-up", "reset-backend", "remove-all-hosts", "add-hosts"}
 
 type c20snap struct {
 	cxTotal, cxDestroy, cxActive uint64
@@ -119,6 +119,14 @@ func c20body(depth int) func() {
 				do(cur, resp.Encode(resp.Cmd("NOSUCH", k0)))
 			case "req-invalid":
 				do(cur, []byte("*1\r\n:1\r\n"))
+			case "req-unfollowable-redirect":
+				// the node answers with a redirection the proxy cannot follow (no target address): that error is
+				// the final answer of the request
+				for _, bad := range []string{"-MOVED 3999\r\n", "-ASK 3999\r\n"} {
+					m0.BadReplies = map[string][]byte{"get": []byte(bad)}
+					do(cur, resp.Encode(resp.Cmd("GET", k0)))
+					m0.BadReplies = nil
+				}
 			case "req-multikey":
 				do(cur, resp.Encode(resp.Cmd("MGET", k0, k1)))
 			case "move-group":
